@@ -225,7 +225,14 @@ impl<R: Read> LineProcessor<R> {
     pub fn count_lines(&mut self) -> Result<usize> {
         let mut count = 0;
         while self.read_next_line()? {
-            if !self.config.skip_empty_lines || !self.line_buffer.trim().is_empty() {
+            // same rule as process_lines: a line is skipped if it is empty after the
+            // configured trimming (not: if it is blank)
+            let line = if self.config.trim_whitespace {
+                self.line_buffer.trim()
+            } else {
+                self.line_buffer.as_str()
+            };
+            if !self.config.skip_empty_lines || !line.is_empty() {
                 count += 1;
             }
         }
